@@ -111,10 +111,20 @@ pub enum DgOp {
     },
 }
 
+/// Observations of API-level events that salsa does not report through `Event`.
+#[derive(Copy, Clone, Debug, PartialEq, Eq, Hash)]
+pub enum Obs {
+    /// A dependency on the interned value `key` was checked while validating a dependent
+    /// (this counts as a use of the interned type in the current revision). `changed` is
+    /// true when the slot has been reclaimed since.
+    InternedDependencyChecked { key: DatabaseKeyIndex, changed: bool },
+}
+
 /// Receiver of hook observations. Implementations must not call into salsa.
 pub trait Sink: Send + Sync + 'static {
     fn failpoint(&self, site: Site);
     fn trace(&self, op: DgOp);
+    fn obs(&self, _obs: Obs) {}
 }
 
 static SINK: OnceLock<Box<dyn Sink>> = OnceLock::new();
@@ -135,6 +145,13 @@ pub(crate) fn failpoint(site: Site) {
 pub(crate) fn trace(op: impl FnOnce() -> DgOp) {
     if let Some(sink) = SINK.get() {
         sink.trace(op());
+    }
+}
+
+#[inline]
+pub(crate) fn obs(obs: impl FnOnce() -> Obs) {
+    if let Some(sink) = SINK.get() {
+        sink.obs(obs());
     }
 }
 
